@@ -74,6 +74,16 @@ pub const CLASSES: &[&str] = &[
     "all_04_1k",
     "truncated_valid",
     "honest_4mib",
+    // complete multipart messages around "round" frame counts (a cap on parts, a counter width)
+    "parts_1023",
+    "parts_1024",
+    "parts_1025",
+    "parts_1026",
+    "parts_2050",
+    "parts_4096",
+    "parts_4097",
+    "parts_65536",
+    "parts_65537",
     // well-formed greetings naming another mechanism / role / version, then a normal peer
     "greeting_plain",
     "greeting_curve",
@@ -213,6 +223,13 @@ pub fn hostile(class: &str, peer_ty: &str, seed: u64) -> Vec<u8> {
             m[..m.len() - 5].to_vec()
         }
         "honest_4mib" => rc::message(&[vec![7u8; 4 << 20]]),
+        c if c.starts_with("parts_") => {
+            let n: usize = c[6..].parse().unwrap_or(2);
+            let mut v = [0x01u8, 0x00].repeat(n - 1);
+            v.extend_from_slice(&[0x00, 0x01, 0x21]); // last frame, no MORE
+            v.extend(rc::message(&[vec![9, 9]]));
+            v
+        }
         c if c.starts_with("greeting_") => {
             let rnd = r.bytes(20);
             let (ver, mech, as_server): ((u8, u8), &[u8], u8) = match c {
@@ -814,6 +831,11 @@ async fn rig_hostile_stays_open(ty: &str, transport: &str, class: &str, stage: u
     use crate::rig::{self, Raw, WAIT};
     let inc = |e: String| ("inconclusive".to_string(), e);
     let mut sock = Sock::new(ty, None);
+    // half of the cases: the application once asked for a monitor and dropped the receiver
+    let monitor_dropped = (stage + class.len() as u64) % 2 == 0;
+    if monitor_dropped {
+        drop(sock.monitor());
+    }
     let ep = sock.bind(&rig::bind_endpoint(transport)).await.map_err(inc)?;
     let peer_ty = peer_type_for(ty);
     let mut bytes = stage_prefix(stage, 2, peer_ty);
@@ -840,12 +862,80 @@ async fn rig_hostile_stays_open(ty: &str, transport: &str, class: &str, stage: u
             if rig::canary_ok().await {
                 Err((
                     format!("C03/rig/other-connection-not-served/{transport}"),
-                    format!("{ty} bound on {transport}: a peer sent {} bytes (stage {stage}, class {class}) and kept its connection open; a healthy {peer_ty} peer connecting afterwards: {e}", bytes.len()),
+                    format!("{ty} bound on {transport} (monitor receiver dropped by the application: {monitor_dropped}): a peer sent {} bytes (stage {stage}, class {class}) and kept its connection open; a healthy {peer_ty} peer connecting afterwards: {e}", bytes.len()),
                 ))
             } else {
                 Err(inc(format!("healthy peer not served while the canary was slow: {e}")))
             }
         }
+    }
+}
+
+/// Child process for one open-hostile-connection case: a deadlock inside the library (a
+/// thread parked on a lock for good) cannot be timed out from inside the same runtime.
+pub fn child_rig_open(args: &[String]) -> i32 {
+    let g = |i: usize| args.get(i).cloned().unwrap_or_default();
+    let stage: u64 = g(3).parse().unwrap_or(0);
+    let (res, _) = crate::rig::run(2, rig_hostile_stays_open(&g(0), &g(1), &g(2), stage));
+    match res {
+        Ok(n) => println!("RIGOPEN {}", json!({"served": n})),
+        Err((sig, msg)) => println!("RIGOPEN {}", json!({"sig": sig, "msg": msg})),
+    }
+    0
+}
+
+fn rig_open_case(ctx: &mut Ctx, case: &Value) {
+    use std::io::Read;
+    let exe = std::env::current_exe().expect("current_exe");
+    let mut child = match Command::new(exe)
+        .args(["child", "c03open", s(case, "ty"), s(case, "transport"), s(case, "class"), &u(case, "stage").to_string()])
+        .stdout(Stdio::piped())
+        .stderr(Stdio::null())
+        .spawn()
+    {
+        Ok(c) => c,
+        Err(e) => {
+            ctx.inconclusive(format!("C03 rig: cannot run child: {e}"));
+            return;
+        }
+    };
+    let t0 = std::time::Instant::now();
+    let finished = loop {
+        match child.try_wait() {
+            Ok(Some(_)) => break true,
+            Ok(None) if t0.elapsed() > std::time::Duration::from_secs(40) => break false,
+            Ok(None) => std::thread::sleep(std::time::Duration::from_millis(20)),
+            Err(_) => break false,
+        }
+    };
+    if !finished {
+        let _ = child.kill();
+        let _ = child.wait();
+        ctx.violation_with(
+            &format!("C03/rig/other-connection-not-served/{}", s(case, "transport")),
+            format!(
+                "{} bound on {}: a peer sent hostile/incomplete bytes (stage {}, class '{}') and kept its connection open; the process then stopped responding altogether (no result within 40 s: every runtime thread is stuck)",
+                s(case, "ty"), s(case, "transport"), u(case, "stage"), s(case, "class")
+            ),
+            case.clone(),
+        );
+        return;
+    }
+    let mut text = String::new();
+    if let Some(mut o) = child.stdout.take() {
+        let _ = o.read_to_string(&mut text);
+    }
+    let Some(line) = text.lines().find(|l| l.starts_with("RIGOPEN ")) else {
+        ctx.inconclusive(format!("C03 rig open: no result ({})", text.lines().last().unwrap_or("")));
+        return;
+    };
+    let v: Value = serde_json::from_str(&line["RIGOPEN ".len()..]).unwrap_or(Value::Null);
+    if let Some(n) = v["served"].as_u64() {
+        ctx.add("rig_healthy_peers_served_beside_an_open_hostile_connection", n);
+    } else if s(&v, "sig") == "inconclusive" {
+        ctx.inconclusive(format!("C03 rig: {}", s(&v, "msg")));
+    } else {
+        ctx.violation_with(s(&v, "sig"), s(&v, "msg").to_string(), case.clone());
     }
 }
 
@@ -921,7 +1011,8 @@ impl Prop for C03 {
         // real accept path: the hostile / incomplete connection stays open
         for ty in ["PULL", "REP", "ROUTER", "PUB"] {
             for transport in ["tcp4", "ipc"] {
-                for (class, stage) in [("", 0u64), ("", 1), ("", 2), ("size_2p40_cmd", 2), ("size_2p62", 2), ("truncated_valid", 3), ("more_empty_1e4_unterminated", 3), ("ready_value_len_truncated", 2)] {
+                for (class, stage) in [("", 0u64), ("", 1), ("", 2), ("size_2p40_cmd", 2), ("size_2p62", 2), ("truncated_valid", 3), ("more_empty_1e4_unterminated", 3), ("ready_value_len_truncated", 2),
+                                       ("random_16", 0), ("all_00_1k", 0), ("cmd_unknown_name", 2), ("random_256", 2), ("greeting_gssapi", 0)] {
                     groups.push(json!({"kind": "rig_open", "ty": ty, "transport": transport, "class": class, "stage": stage}));
                 }
             }
@@ -940,12 +1031,7 @@ impl Prop for C03 {
             "rig_open" => {
                 ctx.eval(hash_str(&case.to_string()), true);
                 ctx.sample("rig_open", || case.clone());
-                let (res, _) = crate::rig::run(2, rig_hostile_stays_open(s(case, "ty"), s(case, "transport"), s(case, "class"), u(case, "stage")));
-                match res {
-                    Ok(n) => ctx.add("rig_healthy_peers_served_beside_an_open_hostile_connection", n),
-                    Err((sig, msg)) if sig == "inconclusive" => ctx.inconclusive(format!("C03 rig: {msg}")),
-                    Err((sig, msg)) => ctx.violation_with(&sig, msg, case.clone()),
-                }
+                rig_open_case(ctx, case);
             }
             "inproc" => {
                 // sanitizer legs: same units, in this process (the sanitizer is the crash oracle)
